@@ -45,13 +45,18 @@ pub struct Model {
 	pub rm_nodes: BTreeMap<[u8; 33], Tm>,
 	secp: Secp256k1<VerifyOnly>,
 	pub verifications: u64,
+	/// announcements that replaced a known channel (same scid, other endpoints / not yet chain-validated)
+	pub replacements: u64,
+	/// announcements accepted for an scid or node that had been removed earlier (tombstone expired or lost on reload)
+	pub comebacks: u64,
+	ever_removed: BTreeSet<u64>,
 }
 
 pub type Verdict = Result<(), &'static str>;
 
 impl Model {
 	pub fn new(lookup: bool) -> Model {
-		Model { lookup, chans: BTreeMap::new(), nodes: BTreeMap::new(), rm_chans: BTreeMap::new(), rm_nodes: BTreeMap::new(), secp: Secp256k1::verification_only(), verifications: 0 }
+		Model { lookup, chans: BTreeMap::new(), nodes: BTreeMap::new(), rm_chans: BTreeMap::new(), rm_nodes: BTreeMap::new(), secp: Secp256k1::verification_only(), verifications: 0, replacements: 0, comebacks: 0, ever_removed: BTreeSet::new() }
 	}
 
 	pub fn view(&self) -> View {
@@ -125,6 +130,10 @@ impl Model {
 		}
 		if let Some((e1, e2, _)) = existing {
 			self.unlink(c.short_channel_id, &e1, &e2);
+			self.replacements += 1;
+		}
+		if self.ever_removed.contains(&c.short_channel_id) {
+			self.comebacks += 1;
 		}
 		let stored = if c.excess_data.len() <= MAX_EXCESS_BYTES_FOR_RELAY { Some(msg.encode()) } else { None };
 		self.chans.insert(
@@ -227,6 +236,7 @@ impl Model {
 	pub fn fail_chan(&mut self, scid: u64) -> bool {
 		if let Some(ch) = self.chans.remove(&scid) {
 			self.rm_chans.insert(scid, Tm::Now);
+			self.ever_removed.insert(scid);
 			self.unlink(scid, &ch.v.n1, &ch.v.n2);
 			true
 		} else {
@@ -242,6 +252,7 @@ impl Model {
 					let other = if ch.v.n1 == *id { ch.v.n2 } else { ch.v.n1 };
 					self.unlink(scid, &other, &other);
 					self.rm_chans.insert(scid, Tm::Now);
+					self.ever_removed.insert(scid);
 				}
 			}
 			self.rm_nodes.insert(*id, Tm::Now);
@@ -282,6 +293,7 @@ impl Model {
 			let ch = self.chans.remove(scid).unwrap();
 			self.unlink(*scid, &ch.v.n1, &ch.v.n2);
 			self.rm_chans.insert(*scid, Tm::At(t));
+			self.ever_removed.insert(*scid);
 		}
 		// tombstones are forgotten one week after the removal
 		let keep = |tm: &Tm| match tm {
